@@ -143,7 +143,29 @@ def lock_exclusion(rep, n):
                 if not any((wd / "xp" / "x" / d / rel).is_symlink() for d in ("jobs", "jobs.bak")):
                     rep.violation("C16/lock/plan-lost-by-refused-entrant", "a process waiting to enter a running experiment has destroyed the record of "
                                   "the plan the running process then completed: its job is linked neither by the index nor by the backup index", {"lock": True})
+            # a third process arrives while the second one (which waited on the lock file the first one used) is inside
+            m3, h3 = root / f"{i}.m3", root / f"{i}.h3"
+            p3 = None
+            if m2.exists() and not both:
+                p3 = subprocess.Popen(["/venv/bin/python", "-W", "ignore", "-c", LOCK_PROG, str(wd), "x", str(m3), str(h3)], env=env,
+                                      stdout=subprocess.DEVNULL, stderr=subprocess.DEVNULL)
+                t0 = time.time()
+                while not Path(str(m3) + ".try").exists() and time.time() - t0 < 60:
+                    time.sleep(0.02)
+                t0 = time.time()
+                while not m3.exists() and time.time() - t0 < 2.0:
+                    time.sleep(0.02)
+                if m3.exists() and not Path(str(m2) + ".out").exists():
+                    rep.violation("C16/lock/two-holders", "two processes are inside the same experiment of the same workspace at once (the one that had "
+                                  "waited for the lock and one that arrived after the first holder left)", {"lock": True})
             h2.write_text("go")
+            h3.write_text("go")
+            if p3 is not None:
+                try:
+                    p3.wait(timeout=60)
+                except subprocess.TimeoutExpired:
+                    p3.kill()
+                    rep.machinery_failure("lock test: the third process did not finish")
             for p in (p1, p2):
                 try:
                     p.wait(timeout=60)
